@@ -12,7 +12,7 @@ REQUIRED_MONITORS = ["decomposition@SD_svalsvec", "pick@FDD_mpe(function, Hermit
                      "pick@FDD_MS.mpe", "pick@EFDD first stage", "narrow-band amplitudes@FDD"]
 ALL_STATES = ["band clipped by grid start", "band clipped by grid end", "selected frequency between lines", "maximum at band edge candidate",
               "several peaks in band", "non-square spectrum", "2 channels", "8 channels"]
-REQUIRED_STATES = ["band clipped by grid end", "selected frequency between lines", "several peaks in band", "non-square spectrum", "array object refilled in place", "band below 0 Hz while the dominant line of the grid is at Nyquist", "EFDD with cm=2",
+REQUIRED_STATES = ["band holding the 0 Hz line, which is the dominant line of the band", "band clipped by grid end", "selected frequency between lines", "several peaks in band", "non-square spectrum", "array object refilled in place", "band below 0 Hz while the dominant line of the grid is at Nyquist", "EFDD with cm=2",
                    "selected frequencies of integer type", "overlapping / repeated selections in one call", "EFDD extraction repeated with another DF1", "selections exactly on spectral lines", "more than 80 dB between first and last singular value", "two almost equally strong peaks in one band",
                    "two spectra of one shape and different content in one setup",
                    "designed ratio curve: twin", "designed ratio curve: fine", "designed ratio curve: plateau"]
@@ -103,6 +103,12 @@ def check_pick(ctx, tag, sig, Sy, freq, sel, DF, Fn, Phi):
         if not ctx.check(i0 <= i <= i1, f"{sig}:outside_band", lambda: f"{tag}: returned line {i} ({freq[i]:.6g} Hz) outside band lines [{i0},{i1}] for f={f:.6g} DF={DF:.4g}"):
             continue
         inner = range(i0 + 1, i1)
+        lo_ = f - DF
+        if freq[i0] - lo_ >= 1e-9 * df and (i0 == 0 or (lo_ - freq[i0 - 1]) > (freq[i0] - lo_) + 1e-6 * df) and i0 < i1:
+            # the first line of the band lies inside the requested band and is unambiguously the line next to its lower limit (always so for
+            # the 0 Hz line of a band reaching below the grid): it competes like every other line of the band
+            inner = range(i0, i1)
+            ctx.state("first line of the band judged (inside the band, unambiguous)")
         if len(inner):
             rin = np.array([ratio(k) for k in inner])
             rmax = rin.max()
@@ -206,6 +212,14 @@ def run_synth(ctx, rng):
         bell = np.zeros(nf)
         bell[-4:] = 50 * np.max(np.abs(S))
         S += np.conj(a)[:, None, None] * a[None, :, None] * bell[None, None, :]
+    static = (not near_nyq) and rng.random() < 0.15
+    if static:
+        # a quasi-static, nearly rank-one component (common drift of all channels): the largest sigma1/sigma2 sits on the very first line (0 Hz),
+        # a line of the grid like any other
+        a = rng.standard_normal(nch) + 1j * rng.standard_normal(nch)
+        bell = np.zeros(nf)
+        bell[:3] = np.array([50.0, 20.0, 5.0]) * np.max(np.abs(S))
+        S += np.conj(a)[:, None, None] * a[None, :, None] * bell[None, None, :]
     W = rng.standard_normal((nch, nch)) + 1j * rng.standard_normal((nch, nch))
     floor = 10 ** rng.uniform(-4, -1) if rng.random() < 0.6 else 10 ** rng.uniform(-13, -4)  # very clean records: > 80 dB between the singular values
     if floor < 1e-8:
@@ -225,6 +239,11 @@ def run_synth(ctx, rng):
         sel[0] = float(freq[0] + rng.uniform(0.5, 3) * df)
         DF = float(max(DF, sel[0] + rng.uniform(0.5, 3) * df))  # the band reaches below 0 Hz
         ctx.state("band below 0 Hz while the dominant line of the grid is at Nyquist")
+    if static and not getattr(run_synth, "twin", None):
+        sel = [float(v) for v in sel]
+        sel[0] = float(freq[0] + rng.uniform(0.0, 2.5) * df)
+        DF = float(max(DF, sel[0] + rng.uniform(0.6, 3) * df))  # the band holds the first line, where the ratio is largest
+        ctx.state("band holding the 0 Hz line, which is the dominant line of the band")
     sel_arg = sel if isinstance(sel, np.ndarray) else list(sel)
     if isinstance(sel, np.ndarray) or all(isinstance(v, int) for v in sel):
         ctx.state("selected frequencies of integer type")
